@@ -1,0 +1,14 @@
+//go:build verif
+// +build verif
+
+package fuse
+
+import "github.com/jacobsa/fuse/fuseutil"
+
+// Accessors for the verification harness. Not part of the regular build.
+
+// VerifFileSystem gives access to the file system operations of a read-only mount without mounting it.
+func (dfs *ReadOnlyFS) VerifFileSystem() fuseutil.FileSystem { return dfs.fsInternal }
+
+// VerifFileSystem gives access to the file system operations of a mutable mount without mounting it.
+func (dfs *MutableFS) VerifFileSystem() fuseutil.FileSystem { return dfs.fsInternal }
